@@ -46,7 +46,7 @@ TOKENS = [
     {"labels": {"a": "foo", "b": "Foo"}, "vals": {"x": "00-01", "y": "01"}},
     {"labels": {"a": "µ", "b": "μ"}, "vals": {"x": "01-00", "y": "01"}},
     # 11: the heap representation asked for whatever the length (Hex::Vector is public): an empty and a short Vector
-    {"labels": {"a": "ab", "b": "~s:a b"}, "vals": {"x": "--~v", "y": "07-18-29~v"}},
+    {"labels": {"a": "ab", "b": "aB"}, "vals": {"x": "--~v", "y": "07-18-29~v"}},
 ]
 
 
